@@ -114,14 +114,14 @@ def _f2(v):
                 if x == y or _f2_rewrite(x) == y or (v["oracle"] == "C02.final_outcome_depends_on_interruptions" and _f2_rewrite(y) == x):
                     return True
                 return ("#" in x and "#" in y and x.startswith("E:") and y.startswith("E:")
-                        and (x.startswith("E:Cal") != y.startswith("E:Cal")))
+                        and (x.startswith("E:Ca") != y.startswith("E:Ca")))     # digests keep 4-8 leading characters
             if all(pair_ok(x, y) for x, y in zip(pa, pb)):
                 return True
         if _f2_rewrite(a["ok"]) == b["ok"] or _f2_rewrite(a["ok"])[:8] == b["ok"][:8] and "#" in b["ok"]:
             return True
         # long observations are compared as digests (first 8 characters + length): the error of the failing condition leads
         if "#" in a["ok"] and "#" in b["ok"] and a["ok"].startswith("E:") and b["ok"].startswith("E:") and (
-                a["ok"].startswith("E:Callab") != b["ok"].startswith("E:Callab")):
+                a["ok"].startswith("E:Ca") != b["ok"].startswith("E:Ca")):
             return True
         # final outcomes of two runs of the same program: which of them last saw the failing wait_for_condition on its
         # first execution (original exception) rather than on a replay depends on where the interruptions fell
